@@ -11,6 +11,7 @@ import (
 
 	"pgregory.net/rapid"
 
+	"github.com/vmware/go-ipfix/pkg/entities"
 	"github.com/vmware/go-ipfix/pkg/intermediate"
 
 	"verifharness/aggh"
@@ -18,7 +19,8 @@ import (
 	"verifharness/glue"
 )
 
-// Op kinds: rec (Recs: one message with these records), reset (Flow), export, query.
+// Op kinds: rec (Recs: one message with these records), reset (Flow), export, query, ext (Flow: the
+// user fills the external fields of the flow's record, once, as a mediator does with pod labels).
 type Op struct {
 	Kind string     `json:"kind"`
 	Recs []aggh.Rec `json:"recs,omitempty"`
@@ -46,7 +48,7 @@ func TestMain(m *testing.M) {
 	os.Exit(code)
 }
 
-type Stats struct{ ThreeWithReset, BothNodes, Exports int }
+type Stats struct{ ThreeWithReset, BothNodes, Exports, ExtThenReset int }
 
 func runCase(c Case, st *Stats) *ev.Failure {
 	if st == nil {
@@ -54,6 +56,7 @@ func runCase(c Case, st *Stats) *ev.Failure {
 	}
 	ap := aggh.New(150*time.Minute, 1000000*time.Hour, nil, 1)
 	model := map[int]*aggh.FlowState{}
+	ext := map[int]bool{} // flows whose external fields the user has filled
 	keyToFlow := map[intermediate.FlowKey]int{}
 	for i, f := range c.Flows {
 		keyToFlow[f.Key()] = i
@@ -72,6 +75,9 @@ func runCase(c Case, st *Stats) *ev.Failure {
 				return ev.Failf("after op %d (%s): flow %d (kind %d): %s", step, what, fi, c.Flows[fi].Kind, d)
 			}
 			if d := aggh.CheckTuple(rs[0], c.Flows[fi]); d != "" {
+				return ev.Failf("after op %d (%s): flow %d: %s", step, what, fi, d)
+			}
+			if d := checkExt(rs[0], fi, ext[fi]); d != "" {
 				return ev.Failf("after op %d (%s): flow %d: %s", step, what, fi, d)
 			}
 		}
@@ -99,6 +105,31 @@ func runCase(c Case, st *Stats) *ev.Failure {
 			}
 			if ms := model[o.Flow%len(c.Flows)]; ms != nil {
 				ms.Reset()
+				if ext[o.Flow%len(c.Flows)] {
+					st.ExtThenReset++
+				}
+			}
+		case "ext":
+			fi := o.Flow % len(c.Flows)
+			target := c.Flows[fi].Key()
+			err := ap.ForAllRecordsDo(func(k intermediate.FlowKey, r *intermediate.AggregationFlowRecord) error {
+				if k != target || ap.AreExternalFieldsFilled(*r) {
+					return nil
+				}
+				if err := r.Record.AddInfoElement(entities.NewStringInfoElement(aggh.IE("interfaceName"), extName(fi))); err != nil {
+					return err
+				}
+				if err := r.Record.AddInfoElement(entities.NewUnsigned32InfoElement(aggh.IE("ingressInterface"), extNum(fi))); err != nil {
+					return err
+				}
+				ap.SetExternalFieldsFilled(r, true)
+				return nil
+			})
+			if err != nil {
+				return ev.Failf("op %d: filling external fields: %v", i, err)
+			}
+			if model[fi] != nil {
+				ext[fi] = true
 			}
 		case "export":
 			st.Exports++
@@ -118,7 +149,13 @@ func runCase(c Case, st *Stats) *ev.Failure {
 				if d := model[fi].Compare(r.Record.GetElementMap()); d != "" && cbFail == nil {
 					cbFail = ev.Failf("op %d: exported record of flow %d: %s", i, fi, d)
 				}
+				if d := checkExt(r.Record.GetElementMap(), fi, ext[fi]); d != "" && cbFail == nil {
+					cbFail = ev.Failf("op %d: exported record of flow %d: %s", i, fi, d)
+				}
 				model[fi].Reset()
+				if ext[fi] {
+					st.ExtThenReset++
+				}
 				return ap.ResetStatAndThroughputElementsInRecord(r.Record)
 			})
 			if err != nil {
@@ -141,6 +178,29 @@ func runCase(c Case, st *Stats) *ev.Failure {
 		}
 	}
 	return nil
+}
+
+func extName(fi int) string { return fmt.Sprintf("ext-if-%d", fi) }
+func extNum(fi int) uint32  { return 4242 + uint32(fi) }
+
+// checkExt: fields the user appended to a record keep their values (a reset clears the statistics
+// and throughput fields only); records the user did not touch carry no such fields.
+func checkExt(m map[string]interface{}, fi int, filled bool) string {
+	n, hasN := m["interfaceName"]
+	u, hasU := m["ingressInterface"]
+	if !filled {
+		if hasN || hasU {
+			return "carries external fields nobody added"
+		}
+		return ""
+	}
+	if !hasN || !hasU {
+		return "the external fields the user added are gone"
+	}
+	if n != extName(fi) || u != extNum(fi) {
+		return fmt.Sprintf("the external fields the user added read %q / %v, they were set to %q / %d", n, u, extName(fi), extNum(fi))
+	}
+	return ""
 }
 
 func genFlows(t *rapid.T) []aggh.FlowDef {
@@ -242,6 +302,8 @@ func genCase(t *rapid.T) Case {
 			c.Ops = append(c.Ops, o)
 		case k == 7:
 			c.Ops = append(c.Ops, Op{Kind: "reset", Flow: rapid.IntRange(0, 3).Draw(t, "rflow")})
+		case k == 8 && rapid.IntRange(0, 2).Draw(t, "ext") == 0:
+			c.Ops = append(c.Ops, Op{Kind: "ext", Flow: rapid.IntRange(0, 3).Draw(t, "eflow")})
 		case k == 8:
 			c.Ops = append(c.Ops, Op{Kind: "export"})
 		default:
@@ -258,6 +320,9 @@ func TestC05(t *testing.T) {
 		var cl []string
 		if st.ThreeWithReset > 0 {
 			cl = append(cl, "three_records_with_reset_between")
+		}
+		if st.ExtThenReset > 0 {
+			cl = append(cl, "reset_after_user_added_external_fields")
 		}
 		if st.BothNodes > 0 {
 			cl = append(cl, "records_from_both_nodes")
